@@ -421,11 +421,31 @@ pub fn run_rows_wrapping(seed: u64, tier: &str, out: &mut Out) {
 
 /// C05 on MultiProgress targets: always rate limited, so that "skipped draws lose nothing" is judged at every
 /// painted frame (each member shows its latest requested rendering)
+/// "skipped draws lose nothing": the bucket of a rate-limited MultiProgress is used up by one member; another member is updated
+/// while its draws are skipped (messages: requests that always reach the limiter); then time passes for one token and the first
+/// member paints the next frame — which must show the other member's latest message, not the one of the last painted frame
+fn gen_throttle_scenario(rng: &mut Rng) -> Case {
+    let w = *rng.pick(&[14u16, 20, 40]);
+    let hz = *rng.pick(&[1u8, 2, 20]);
+    let mut ops = vec![MOp::MpPrintln("L0".into())];
+    ops.push(MOp::Add { loc: 0, arg: 0, len: Some(10), tpl: 1, prefix: "A".into(), fin: Fin::Leave });
+    ops.push(MOp::Add { loc: 0, arg: 0, len: Some(10), tpl: 3, prefix: "B".into(), fin: Fin::Leave });
+    ops.push(MOp::Bar(1, BOp::Msg("first".into())));
+    for _ in 0..rng.range(21, 26) { ops.push(MOp::Bar(0, BOp::Tick)); }
+    for r in 0..rng.range(1, 3) {
+        for k in 0..rng.range(1, 3) { ops.push(MOp::Bar(1, BOp::Msg(format!("m{r}{k}")))); if rng.chance(1, 2) { ops.push(MOp::Bar(1, BOp::Tick)); } }
+        ops.push(MOp::Adv(1_000_000_000 / hz as u64 + 1));
+        ops.push(MOp::Bar(0, BOp::Tick));
+    }
+    if rng.chance(1, 2) { ops.push(MOp::MpPrintln("L1".into())); }
+    Case { w, h: 24, hz, ops, small: false }
+}
+
 pub fn run_limited(seed: u64, tier: &str, out: &mut Out) {
     let mut rng = Rng::new(seed ^ 0x05);
     let n = if tier == "thorough" { 100_000 } else { 2_000 };
-    for _ in 0..n {
-        let mut c = if rng.chance(1, 3) { gen_scenario(&mut rng) } else { gen_case(&mut rng, false) };
+    for i in 0..n {
+        let mut c = if i % 5 == 4 { gen_throttle_scenario(&mut rng) } else if rng.chance(1, 3) { gen_scenario(&mut rng) } else { gen_case(&mut rng, false) };
         if c.hz == 0 { c.hz = *rng.pick(&[1u8, 1, 20, 255]); }
         let case = encode(&c);
         let (obs, verdict) = run_case(&c);
